@@ -73,6 +73,10 @@ def decode(n):
 
 def subnatives(n, acc):
     acc.append(n)
+    if isinstance(n, dict) and "s" in n:
+        # a sequence iterates a text character by character
+        for c in dict.fromkeys(n["s"][:24]):
+            acc.append({"s": c})
     if isinstance(n, list):
         for x in n:
             subnatives(x, acc)
@@ -170,7 +174,14 @@ class C03(Property):
     id = "C03"
     title = "Exported native value re-imports to an equal element"
     proof_module = "Proofs.C03"
-    theorems = []
+    theorems = [
+        "Flatland.C03.Proofs.reimport",
+        "Flatland.C03.Proofs.reimport_value",
+        "Flatland.C03.Proofs.stable_blank",
+        "Flatland.C03.Proofs.rebuild",
+        "Flatland.C03.Proofs.grown_setPairs",
+        "Flatland.C03.Proofs.reimport_needs_leafIdem",
+    ]
     trusted_base = [
         "what a scalar / JoinedString / DateYYYYMMDD makes of a native input is an input of the model (adapt tables computed from the "
         "real classes in isolation: C04/C18's subject)",
